@@ -30,7 +30,7 @@ from tensora.problem import Problem
 
 from . import kx, space
 from .am import UNINIT, Fault, Machine
-from .common import BUILD_DIR, VERIF, jsonable
+from .common import cap_findings, BUILD_DIR, VERIF, jsonable
 from .tensors import am_freeze_structure, am_input, am_output, parse_fmt
 
 OPT = os.environ.get("VERIF_NX_OPT", "-O1")
@@ -576,6 +576,6 @@ def work(unit):
         stats[f"seconds {k}"] = round(v, 2)
     if not opts.get("keep"):
         shutil.rmtree(workdir, ignore_errors=True)
-    return {"stats": dict(stats), "findings": findings[:40], "samples": samples, "cases": len(cases),
+    return {"stats": dict(stats), "findings": cap_findings(findings), "samples": samples, "cases": len(cases),
             "validated": validated, "steps": steps, "wall": time.time() - t0,
             "backends": sorted(results)}
